@@ -26,6 +26,7 @@ const (
 	kStr
 	kList
 	kMap
+	kRaw // an expression given as native-syntax source (only in "expr" perturbations)
 )
 
 type Lit struct {
@@ -33,6 +34,7 @@ type Lit struct {
 	B     bool
 	Num   string // decimal text
 	Str   string
+	Raw   string   // kRaw: native expression source; in JSON the template string "${Raw}"
 	Elems []*Lit   // list elements, or map values (parallel to Keys)
 	Keys  []string // map keys
 }
@@ -245,6 +247,8 @@ func nativeLit(sb *strings.Builder, l *Lit) {
 		sb.WriteString(l.Num)
 	case kStr:
 		sb.WriteString(nativeQuote(l.Str))
+	case kRaw:
+		sb.WriteString(l.Raw)
 	case kList:
 		sb.WriteByte('[')
 		for i, e := range l.Elems {
@@ -300,7 +304,20 @@ type jsonOpts struct {
 	tmpl   bool // strings in expression position are templates (non-nil EvalContext): escape introducers
 	arrays bool // array-of-objects form at every body and label level
 	merged bool // consecutive blocks of one type share one property and one label tree (see labelTree)
+	// comments: every object that represents a body additionally has a "//"
+	// property (json/spec.md "Bodies": "The special property name "//", when
+	// used in an object representing a HCL body, is parsed and ignored"): first,
+	// with a string value, in the root body (its own element in the arrays
+	// form); last, with a structured value, in every block body. Objects of
+	// labelling levels and of expressions never get one (there the name is an
+	// ordinary label / key).
+	comments bool
 }
+
+const (
+	jsonRootComment  = `"//":"a comment"`
+	jsonBlockComment = `"//":{"note":["nested",1,null],"//":"x"}`
+)
 
 func jq(s string) string {
 	b, err := json.Marshal(s)
@@ -326,6 +343,13 @@ func jsonLit(sb *strings.Builder, l *Lit, o jsonOpts) {
 		sb.WriteString(l.Num)
 	case kStr:
 		sb.WriteString(jq(esc(l.Str)))
+	case kRaw:
+		// json/spec.md "Strings": in full expression mode a string is a
+		// template; a single interpolation sequence yields its value as is
+		if !o.tmpl {
+			panic("harness: raw expression in a literal-mode JSON document")
+		}
+		sb.WriteString(jq("${" + l.Raw + "}"))
 	case kList:
 		sb.WriteByte('[')
 		for i, e := range l.Elems {
@@ -477,9 +501,12 @@ func jsonBody(sb *strings.Builder, b *Body, o jsonOpts, root bool) {
 		// JSON array of objects": one single-property object per item. (Not
 		// usable for a block body, where an array denotes several blocks.)
 		sb.WriteByte('[')
+		if o.comments {
+			sb.WriteString("{" + jsonRootComment + "}")
+		}
 		for i := 0; i < len(b.Items); i++ {
 			it := b.Items[i]
-			if i > 0 {
+			if i > 0 || o.comments {
 				sb.WriteByte(',')
 			}
 			sb.WriteString("{" + jq(it.Name) + ":")
@@ -499,9 +526,21 @@ func jsonBody(sb *strings.Builder, b *Body, o jsonOpts, root bool) {
 		return
 	}
 	sb.WriteByte('{')
+	if o.comments && root {
+		sb.WriteString(jsonRootComment)
+	}
+	defer func() {
+		if o.comments && !root {
+			if len(b.Items) > 0 {
+				sb.WriteByte(',')
+			}
+			sb.WriteString(jsonBlockComment)
+		}
+		sb.WriteByte('}')
+	}()
 	for i := 0; i < len(b.Items); i++ {
 		it := b.Items[i]
-		if i > 0 {
+		if i > 0 || (o.comments && root) {
 			sb.WriteByte(',')
 		}
 		sb.WriteString(jq(it.Name) + ":")
@@ -536,7 +575,6 @@ func jsonBody(sb *strings.Builder, b *Body, o jsonOpts, root bool) {
 		sb.WriteByte(']')
 		i = j
 	}
-	sb.WriteByte('}')
 }
 
 func renderJSON(b *Body, o jsonOpts) []byte {
@@ -675,6 +713,13 @@ func (p Pert) apply(root *Body) (target *Item, ok bool) {
 		cp := *it
 		cp.Labels = append([]string{}, it.Labels[1:]...)
 		b.Items[i] = &cp
+	case "expr":
+		if it.Block || p.Arg >= len(exprTable) {
+			return nil, false
+		}
+		cp := *it
+		cp.Val = &Lit{Kind: kRaw, Raw: exprTable[p.Arg].Src}
+		b.Items[i] = &cp
 	case "retype":
 		if it.Block || p.Arg >= len(retypeLits()) {
 			return nil, false
@@ -686,4 +731,25 @@ func (p Pert) apply(root *Body) (target *Item, ok bool) {
 		return nil, false
 	}
 	return it, true
+}
+
+// exprPerturbations: every attribute of the document (at any depth) replaced
+// by every expression of exprTable, in a fixed order.
+func exprPerturbations(root *Body) []Pert {
+	var out []Pert
+	var walk func(b *Body, path []int)
+	walk = func(b *Body, path []int) {
+		p := func(extra ...int) []int { return append(append([]int{}, path...), extra...) }
+		for i, it := range b.Items {
+			if it.Block {
+				walk(it.Body, p(i))
+				continue
+			}
+			for k := range exprTable {
+				out = append(out, Pert{Op: "expr", Path: p(i), Arg: k})
+			}
+		}
+	}
+	walk(root, nil)
+	return out
 }
